@@ -69,7 +69,7 @@ pub struct C13;
 
 /// File names for the multi-file histories: same stem with other extensions, the scratch names a
 /// write-to-temporary-then-rename implementation might choose, a backup name, another stem.
-const NAMES: &[&str] = &["g.qgraph", "g.json", "g.tmp", "g", "g.0", "g.1", "g.qgraph.tmp", "g.qgraph.bak", ".g.qgraph.tmp", "g.tmp.qgraph", "h.qgraph", "g.qgraph~", "g.new", "tmp"];
+const NAMES: &[&str] = &["g.qgraph", "g.json", "g.tmp", "g", "g.0", "g.1", "g.qgraph.tmp", "g.qgraph.bak", ".g.qgraph.tmp", "g.tmp.qgraph", "h.qgraph", "g.qgraph~", "g.new", "tmp", "g q.qgraph", "ünï cödé.qgraph", "g.qgraph.qgraph", "G.QGRAPH"];
 
 fn phase_close(a: &DV, b: &DV) -> bool {
     // exact equality modulo 2 of a.num/a.den and b.num/b.den
